@@ -781,7 +781,8 @@ fn classic_cases(thorough: bool) -> Vec<Case> {
     let mut out: Vec<Case> = vec![];
     // parameter shapes: main, and defun / inline called positionally through paths into ARGS
     let flat: Vec<usize> = (1..=40).collect();
-    for p in param_patterns(if thorough { 4 } else { 3 }, &flat) {
+    // the classic compiler is fast: parameter trees with up to 4 leaves in both tiers
+    for p in param_patterns(4, &flat) {
         if let Some(c) = params_case(&p, "main", None) {
             out.push(c);
         }
@@ -1007,7 +1008,7 @@ pub fn c03(thorough: bool, replay: Option<String>) -> i32 {
         });
         rep.add_sub("constants-graphs", &format!("{} programs: chains of 2..{} defconst constants depending on each other directly / through a defun / an inline / a template macro, in every order of the definitions; each compiled with the pending-constants loop of the classic module compiler iterated in sorted order and in every other permutation at each visit (through the verif-hooks seam; every order is realisable under some hash seeding)", n, if thorough { 4 } else { 3 }), n, true, capped2, st2);
     }
-    rep.add_sub("classic-programs", &format!("{} programs: every parameter tree with <= {} leaves and flat/improper lists up to 40 as main / defun / defun-inline parameters, every literal and operator in 6 positions, binder chains over defun/inline/macro/if, recursion, constant calls, kernels", n, if thorough { 4 } else { 3 }), n, true, capped, st);
+    rep.add_sub("classic-programs", &format!("{} programs: every parameter tree with <= {} leaves and flat/improper lists up to 40 as main / defun / defun-inline parameters, every literal and operator in 6 positions, binder chains over defun/inline/macro/if, recursion, constant calls, kernels", n, 4), n, true, capped, st);
     rep.finish()
 }
 
